@@ -110,6 +110,12 @@ impl Prop for C36 {
 fn gen_loop_case(rng: &mut Rng, tier: Tier, out: &mut Vec<String>) {
     let max_publish = *rng.pick(&[1u64, 2, 3]);
     out.push(format!("reset {}", max_publish));
+    // cases that let time pass never disconnect (a publish that fails at once and a due tick in the same
+    // poll may be handled in either order by `select!`)
+    let with_time = rng.chance(1, 2);
+    if with_time || rng.chance(1, 2) {
+        out.push(format!("addsub {}", rng.range(1, 3)));
+    }
     let len = if tier == Tier::Thorough { rng.range(1, 80) } else { rng.range(1, 30) };
     let mut inflight: Vec<u64> = Vec::new();
     let mut next_id = 0u64;
@@ -117,7 +123,7 @@ fn gen_loop_case(rng: &mut Rng, tier: Tier, out: &mut Vec<String>) {
     let mut seq = 0u64;
     for _ in 0..len {
         let w_done = if inflight.is_empty() { 0 } else { 10 };
-        match rng.weighted(&[6, w_done, w_done / 2, 1, 1]) {
+        match rng.weighted(&[6, w_done, w_done / 2, if with_time { 0 } else { 1 }, 1, if with_time { 4 } else { 0 }]) {
             0 => {
                 out.push("trigger".to_string());
                 if connected {
@@ -134,6 +140,8 @@ fn gen_loop_case(rng: &mut Rng, tier: Tier, out: &mut Vec<String>) {
                     seq += 1;
                 }
                 out.push(format!("lcomplete {} {} {} {} {}", id, rng.range(1, 2), seq + (kind != "data") as u64, b(more), kind));
+                // follow-up publishes (more_notifications, a due tick) are not tracked exactly here: ids are
+                // probed below
                 if more && connected {
                     inflight.push(next_id);
                     next_id += 1;
@@ -142,10 +150,9 @@ fn gen_loop_case(rng: &mut Rng, tier: Tier, out: &mut Vec<String>) {
             2 => {
                 let k = rng.below(inflight.len() as u64) as usize;
                 let id = inflight.remove(k);
-                match rng.weighted(&[5, 1, 3, 1]) {
+                match rng.weighted(&[5, 1, 4, 1]) {
                     0 => {
                         out.push(format!("lfail {} timeout", id));
-                        // retried at once when below the limit
                         if connected && (inflight.len() as u64) < max_publish {
                             inflight.push(next_id);
                             next_id += 1;
@@ -153,7 +160,7 @@ fn gen_loop_case(rng: &mut Rng, tier: Tier, out: &mut Vec<String>) {
                     }
                     1 => out.push(format!("lfail {} closed", id)),
                     2 => {
-                        let st = *rng.pick(&[0x8078_0000u32, 0x8079_0000, 0x8025_0000, 0x800A_0000]);
+                        let st = *rng.pick(&[0x8078_0000u32, 0x8078_0000, 0x8079_0000, 0x8025_0000, 0x800A_0000, 0]);
                         out.push(format!("lfail {} fault {}", id, st));
                         if st == 0x800A_0000 && connected && (inflight.len() as u64) < max_publish {
                             inflight.push(next_id);
@@ -167,11 +174,31 @@ fn gen_loop_case(rng: &mut Rng, tier: Tier, out: &mut Vec<String>) {
                 connected = !connected || rng.chance(1, 3);
                 out.push(format!("connected {}", b(connected)));
             }
-            _ => match rng.below(3) {
+            4 => match rng.below(3) {
                 0 => out.push(format!("lcomplete {} 1 1 0 data", next_id + rng.below(3))),
                 1 => out.push(format!("lfail {} timeout", next_id + rng.below(3))),
                 _ => out.push(format!("addsub {}", rng.range(1, 3))),
             },
+            _ => {
+                out.push("age".to_string());
+                // a tick may publish after the next item of the stream: one more id may be in flight
+                if (inflight.len() as u64) < max_publish + 1 {
+                    // not known for sure; the next ops probe next_id as well as the known ones
+                }
+            }
+        }
+        // a tick may have published without the generator knowing: sometimes answer the newest possible id
+        if with_time && rng.chance(1, 4) {
+            let id = next_id;
+            match rng.below(3) {
+                0 => out.push(format!("lcomplete {} 1 {} 0 data", id, { seq += 1; seq })),
+                1 => out.push(format!("lfail {} fault {}", id, 0x8078_0000u32)),
+                _ => out.push(format!("lfail {} timeout", id)),
+            }
+            // if it existed it is gone now and maybe replaced; resynchronise loosely
+            if rng.chance(1, 2) {
+                next_id += 1;
+            }
         }
     }
 }
@@ -242,7 +269,7 @@ impl R {
         // the subscription event loop exists from the start (SessionEventLoop creates it on connect), so
         // that it has seen the trigger channel's initial value before any trigger is sent
         let sub_loop = Some(hk::session_subscription_loop(&session));
-        R {
+        let mut r = R {
             rt,
             _client: client,
             session,
@@ -255,7 +282,11 @@ impl R {
             any_failed: false,
             any_keepalive: false,
             sub_loop,
-        }
+        };
+        // the real client polls the loop all the time: its first turn starts now (and computes its
+        // wake-up time from the state as it is now)
+        let _ = r.pump_loop();
+        r
     }
 
     /// input class of the history so far
@@ -638,6 +669,11 @@ impl Runner for R {
                     ),
                 }
             }
+            ["age"] => {
+                // time passes: the last publish request is now more than a publishing interval (600 s) ago
+                hk::session_age_last_publish(&self.session, 1300);
+                ("ok".to_string(), Verdict::Ok)
+            }
             ["trigger"] => {
                 hk::session_trigger_publish(&self.session);
                 let (evs, v) = self.pump_loop();
@@ -701,7 +737,7 @@ impl Runner for R {
                 let id: u32 = id.parse().unwrap();
                 let sub = Subscription::new(
                     id,
-                    Duration::from_secs(86_400),
+                    Duration::from_secs(600),
                     10,
                     3,
                     0,
